@@ -1,6 +1,7 @@
 #[cfg(feature = "std")]
 mod blockval;
 mod hooks;
+mod link;
 mod observe;
 mod optval;
 mod registry;
@@ -27,6 +28,10 @@ fn main() {
         ("rec", "optval") => optval::rec_optval(&args),
         ("replay", "observe") => observe::replay_observe(&args),
         ("rec", "observe") => observe::rec_observe(&args),
+        ("replay", "linkwrite") => link::replay_linkwrite(&args),
+        ("replay", "linkparse") => link::replay_linkparse(&args),
+        ("replay", "linkfault") => link::replay_linkfault(&args),
+        ("rec", "link") => link::rec_link(&args),
         ("rec", "wire-bytes") => wire::rec_wire_bytes(&args),
         ("rec", "wire-build") => wire::rec_wire_build(&args),
         ("rec", "wire-limit") => wire::rec_wire_limit(&args),
